@@ -22,3 +22,5 @@ THOROUGH = CONFIGS + [
 
 def run(check):
     usimrun.explore(check, OBS, CONFIGS if check.tier == 'quick' else THOROUGH, random=True)
+    # 3..6 receivers waiting, some leave from the middle of the waiting list, then the items arrive
+    usimrun.judge(check, OBS, usimrun.waiter_runs(check, 'queue'))
